@@ -1068,6 +1068,15 @@ pub fn run(args: &Args) {
         let (code, marks) = coq_code(&igr);
         let dims = coq_dims(&igr);
         let n_instr = igr.instructions.len();
+        if !code.contains("IOther") {
+            // decided without running: the validator accepts the real instruction list
+            w.push(Case {
+                agree: format!("check_valid {} {} {}", dims, coq_program(&prog), code),
+                desc: format!("valid {}", src.replace('\n', " | ")),
+                model_expr: format!("check_valid {} {} {}", dims, coq_program(&prog), code),
+            });
+            sum.count("validated_layouts");
+        }
         let r = run_compiled(igr, udts, &RunOpts { budget: 20_000, ..Default::default() });
         match &r.end {
             End::Panic(msg) => {
